@@ -67,8 +67,21 @@ def ev(e, fresh, leaves):
         return fresh[e[1]]
     if k == "mul": a = ev(e[1], fresh, leaves); b = ev(e[2], fresh, leaves); return a * b
     if k == "div": a = ev(e[1], fresh, leaves); b = ev(e[2], fresh, leaves); return a / b
-    if k == "pow": return ev(e[1], fresh, leaves) ** e[2]
-    if k == "root": return ev(e[1], fresh, leaves).root(e[2])
+    if k == "pow":
+        a = ev(e[1], fresh, leaves)
+        if REFUSED_FIRST[0]:
+            # the same power asked for with an exponent the library refuses (a float): refused, and without consequence for the integer power
+            for bad in (float(e[2]), float(e[2]) + 0.5):
+                try: a ** bad
+                except Exception: pass  # noqa
+        return a ** e[2]
+    if k == "root":
+        a = ev(e[1], fresh, leaves)
+        if REFUSED_FIRST[0]:
+            for bad in (0, float(e[2])):
+                try: a.root(bad)
+                except Exception: pass  # noqa
+        return a.root(e[2])
     if k == "pre":
         a = ev(e[2], fresh, leaves)
         p = Prefix._by_name[e[1]] if isinstance(e[1], str) else Prefix(e[1][0], e[1][1])
@@ -93,8 +106,11 @@ def ev(e, fresh, leaves):
         raise ValueError(r)
     raise ValueError(k)
 
+REFUSED_FIRST = [False]
+
 def run(data):
     out = []
+    REFUSED_FIRST[0] = bool(data.get("refused_first"))
     for hist in data["histories"]:
         fresh = []
         hres = []
